@@ -43,7 +43,7 @@ LOCAL_KNOWN = [
      "what": "Spilled iterator (fetch of a set with more than 1024 stored elements) stops at the first staged-removed element of the half-constructed set once the rest of the scan and the staged additions are exhausted: elements are missing from the iteration (key_of_set_map/cache.rs MergeIterator::Spilled)"},
 ]
 
-TRACE_EVENTS = {"run", "new", "ws", "we", "sub", "gs", "ge", "cs", "ce", "flood", "panic", "dead", "reset"}
+TRACE_EVENTS = {"run", "new", "ws", "we", "sub", "gs", "ge", "db", "dbx", "cs", "ce", "flood", "panic", "dead", "reset"}
 
 
 def known_by_tag(verdict):
